@@ -30,6 +30,8 @@ EXPECT = {
     "R-LIFE.ret": [("returns-local", "ctl_ret_local"), ("returns-temporary-through-helper", "ctl_ret_temporary")],
     "R-API.ret": [("value-to-reference", "ctl_api_ref")],
     "R-GRD.fwd": [("member-skipped-on-one-path", "CtlCompound::transform")],
+    "R-LIFE.seq": [("moved-and-read-in-one-call", "ctl_moved_and_read")],
+    "R-EX.init": [("size-only-eigen-matrix", "ctl_eigen_uninit")],
 }
 
 _cache = {}
@@ -62,6 +64,14 @@ def _run_all():
         r_own.returned_references(c, [u], scope=lambda f: "vt_control" in f.qn)
         r_own.api_returns(c, [u], baseline={"vt_control::ctl_api_ref|1": "value"})
         r_grd.forwarding(c, [u])
+        r_small.r_arg_sequence(c, [u], lambda f: "vt_control" in f.qn)
+        saved2 = list(C.LIB_EXTRA)
+        C.LIB_EXTRA.append(os.path.join(C.DRIVERS, "controls_eigen.cpp"))
+        ue = F.load("controls_eigen")
+        r_small.r_eigen_init(c, [ue], lambda f: "vt_control" in f.qn)
+        silent = [v for v in c.violations if v["rule"] in ("R-EX.init", "R-LIFE.seq") and "ok_" in v["function"]]
+        if silent:
+            raise AnalysisBroken("a rule fires on an accepted idiom of the controls: %s" % silent[0]["function"])
     finally:
         C.LIB_EXTRA[:] = saved
     _cache["v"] = c.violations
